@@ -1,8 +1,109 @@
 (* C10 — property theorems.  Nothing but statements, `exact`, Print Assumptions. *)
 From FwdLib Require Import Bytes.
-From G09 Require Import Tables H2Relay Ledger Check Term Obligations.
+From G09 Require Import Tables H2Relay Ledger Check Term Obligations Obligations10 FlowBasics PairBasics PairWin PairMisc
+  FifoProofs PairFifo NoStrand Spec Content Fidelity Misc10 Witness.
 Open Scope N_scope.
 
-Theorem T10_chunks_terminate : forall first cmax data, 0 < cmax -> split_chunks first cmax data <> None.
-Proof. exact split_chunks_terminates. Qed.
-Print Assumptions T10_chunks_terminate.
+(* Per-stream order: for every history, every endpoint x and every stream s, the frames released towards x
+   on s followed by the frames still held for x on s are exactly the frames queued for x on s, in the
+   order they were queued (DATA and zero-cost frames share the queue). *)
+Theorem T10_fifo :
+  forall (dstate estate : Type) dec enc dresize eresize (evs : list event) (d1 : dstate) (e1 : estate) d2 e2 x s,
+    hist_wf evs ->
+    let r := H2Relay.run dec enc dresize eresize (pair0 dstate estate d1 e1 d2 e2) evs in
+    on s (emitted_to x (snd r)) ++ queue_of (r_flow (toward x (fst r))) s = on s (enqueued_for x (snd r)).
+Proof. exact fifo_from_start. Qed.
+Print Assumptions T10_fifo.
+
+(* Fidelity: the logical content of what has been released towards x on stream s, followed by what is
+   still held, is the content the other endpoint put on s: header lists as decoded from the reassembled
+   block (HEADERS or PUSH_PROMISE + CONTINUATION fragments, any split), END_STREAM on the same element,
+   priority, concatenated DATA bytes, RST_STREAM code, PRIORITY - in the same order.
+   seq_wf: the ordering http2.Framer enforces on what it returns; all_ok: no frame was refused. *)
+Theorem T10_fidelity :
+  forall (dstate estate : Type) dec enc dresize eresize (evs : list event) (d1 : dstate) (e1 : estate) d2 e2 x s,
+    hist_wf evs -> seq_wf None (inputs (other x) evs) ->
+    let r := H2Relay.run dec enc dresize eresize (pair0 dstate estate d1 e1 d2 e2) evs in
+    all_ok (snd r) ->
+    qcontent (on s (emitted_to x (snd r)) ++ queue_of (r_flow (toward x (fst r))) s) =
+    spec_content dstate dec s (r_dst (toward x (pair0 dstate estate d1 e1 d2 e2))) (inputs (other x) evs).
+Proof. exact (fun ds es dec enc dr er => fidelity_from_start ds es dec enc dr er ob_cont_end_stream_from_frame ob_decoder_not_resized). Qed.
+Print Assumptions T10_fidelity.
+
+(* hence what has been released is always an initial part of what was sent *)
+Theorem T10_prefix_order :
+  forall (dstate estate : Type) dec enc dresize eresize (evs : list event) (d1 : dstate) (e1 : estate) d2 e2 x s,
+    hist_wf evs -> seq_wf None (inputs (other x) evs) ->
+    let r := H2Relay.run dec enc dresize eresize (pair0 dstate estate d1 e1 d2 e2) evs in
+    all_ok (snd r) ->
+    exists held, qcontent (on s (emitted_to x (snd r)) ++ held) =
+                 spec_content dstate dec s (r_dst (toward x (pair0 dstate estate d1 e1 d2 e2))) (inputs (other x) evs).
+Proof.
+  exact (fun ds es dec enc dr er evs d1 e1 d2 e2 x s Hwf Hseq Hok =>
+           ex_intro _ _ (fidelity_from_start ds es dec enc dr er ob_cont_end_stream_from_frame ob_decoder_not_resized
+                           evs d1 e1 d2 e2 x s Hwf Hseq Hok)).
+Qed.
+Print Assumptions T10_prefix_order.
+
+(* Nothing is stranded: after every frame of every history, in both relays, the head of every queue fails
+   the gate of emitEligibleFrames, i.e. (ob_emit_gate) is larger than the stream window or the connection window. *)
+Theorem T10_no_stranding :
+  forall (dstate estate : Type) dec enc dresize eresize (evs : list event) (d1 : dstate) (e1 : estate) d2 e2,
+    let p := fst (H2Relay.run dec enc dresize eresize (pair0 dstate estate d1 e1 d2 e2) evs) in
+    NS (r_flow (toC p)) /\ NS (r_flow (toS p)).
+Proof. exact (fun ds es dec enc dr er evs d1 e1 d2 e2 => run_NS ds es dec enc dr er evs (pair0 ds es d1 e1 d2 e2) NS0 NS0). Qed.
+Print Assumptions T10_no_stranding.
+
+(* ... and once both windows cover what is queued for a stream, scanning it empties the queue. *)
+Theorem T10_drains : forall s fl o, get_buf s (f_bufs fl) = Some o ->
+  (qtot (ob_q o) <= f_conn fl)%Z -> (qtot (ob_q o) <= ob_win o)%Z -> queue_of (fst (emit_stream s fl)) s = [].
+Proof. exact (emit_stream_drains ob_emit_gate ob_emit_debits). Qed.
+Print Assumptions T10_drains.
+
+(* SETTINGS, SETTINGS ACK, PING, GOAWAY: relayed one for one to the other endpoint in the same step. *)
+Theorem T10_conn_frames :
+  forall (dstate estate : Type) dec enc dresize eresize (evs : list event) (p : pair dstate estate),
+    forallb conn_stepb (snd (H2Relay.run dec enc dresize eresize p evs)) = true.
+Proof. exact conn_frames_run. Qed.
+Print Assumptions T10_conn_frames.
+
+(* SETTINGS_HEADER_TABLE_SIZE of endpoint x bounds the encoder of the relay sending to x; the relay reading
+   from x is not touched. *)
+Theorem T10_table_size :
+  forall (dstate estate : Type) dec enc dresize eresize (p : pair dstate estate) from v orders,
+    r_est (toward from (s_pair (pstep dec enc dresize eresize p from (RSettings false [(1, v)]) orders))) = eresize (r_est (toward from p)) v /\
+    toward (other from) (s_pair (pstep dec enc dresize eresize p from (RSettings false [(1, v)]) orders)) = toward (other from) p.
+Proof. exact table_size_step. Qed.
+Print Assumptions T10_table_size.
+
+(* The wire form of a queued header block: HEADERS (same stream, END_STREAM and priority as queued) then
+   CONTINUATION frames of that stream, END_HEADERS on the last frame only, fragments = the chunks ... *)
+Theorem T10_wire_headers : forall id es p fields c0 rest,
+  let ws := send (QHdr id es p fields (c0 :: rest)) in
+  hd_error ws = Some (WHeaders id es (match rest with [] => true | _ => false end) p c0) /\
+  concat (map frag_of ws) = concat (c0 :: rest) /\
+  Forall (fun w => w_id w = id) ws /\
+  map ends_headers ws = repeat false (length rest) ++ [true].
+Proof. exact send_headers_wire. Qed.
+Print Assumptions T10_wire_headers.
+
+(* ... and the chunks are the encoded block: splitIntoChunks loses and reorders nothing. *)
+Theorem T10_chunks_lossless : forall first cmax data ch,
+  split_chunks first cmax data = Some ch -> concat ch = data /\ ch <> [].
+Proof. exact split_chunks_concat. Qed.
+Print Assumptions T10_chunks_lossless.
+
+(* The client preface is forwarded whatever way the transport cuts the client's first bytes into reads. *)
+Theorem T10_preface_any_segmentation : forall reads tail, concat reads = connection_preface ++ tail ->
+  fst (forward_preface reads) = Some connection_preface /\ concat (snd (forward_preface reads)) = tail.
+Proof. exact (preface_any_segmentation ob_preface_read_full). Qed.
+Print Assumptions T10_preface_any_segmentation.
+
+(* Non-vacuity: the hypotheses of T10_fidelity are met by a history with a header block split over
+   CONTINUATION frames, queued DATA and trailers. *)
+Example T10_example :
+  hist_wf fid_hist /\ seq_wf None (inputs Cl fid_hist) /\
+  all_ok (snd (H2Relay.run one_dec one_enc unit_res unit_res (pair0 unit unit tt tt tt tt) fid_hist)) /\
+  qcontent (on 1 (emitted_to Sv (snd (H2Relay.run one_dec one_enc unit_res unit_res (pair0 unit unit tt tt tt tt) fid_hist)))) =
+    [EHdr (Some [(b "a", b "b", false)]) false prio0; EData [1; 2; 3]].
+Proof. exact (conj fid_wf (conj fid_seq (conj fid_ok fid_content))). Qed.
